@@ -44,6 +44,8 @@ def enc_of(ch, name):
         return ['FULL', 'String', 1, 2] if TYPE[ch] == 'String' else ['FULL', TYPE[ch], 1]
     if name == 'F2':
         return ['FULL', 'String', 2, 3] if TYPE[ch] == 'String' else ['FULL', TYPE[ch], 2]
+    if name == 'F0':
+        return ['FULL', 'String', 0, 0] if TYPE[ch] == 'String' else ['FULL', TYPE[ch], 0]
     if name == 'FX':
         return ['FULL', ALT[ch], 1]
     return [name]
@@ -274,6 +276,48 @@ def _variant_worker(item):
     return res
 
 
+def check_raw_history(hist, seed):
+    """a history given as segments (not labels): reference + explicit-encoding oracle, eager and lazy"""
+    ref = G.interpret(hist, seed=seed, lenient=True, filler_phase=seed)
+    data = G.encode(hist, seed=seed, ref=ref, filler_phase=seed)[0]
+    if ref.forbidden:
+        return 'skipped-forbidden', None
+    oe = H.observe(data, lazy=False)
+    for mode, o in (('eager', oe), ('lazy', H.observe(data, lazy=True))):
+        if o[0] != 'ok':
+            return 'raised', ('valid history raised %s: %s' % (o[1], o[2]), mode, 'raised')
+        why = H.compare_with_ref(o[1], ref)
+        if why:
+            return 'differs', (why, mode, 'differs-from-reference')
+    dx = G.encode(G.explicit(hist, seed=seed), seed=seed, filler_phase=seed)[0]
+    ox = H.observe(dx, lazy=False)
+    if ox[0] != 'ok':
+        return 'raised', ('explicit encoding raised %s: %s' % (ox[1], ox[2]), 'explicit', 'raised')
+    if ox[1] != oe[1]:
+        return 'differs', ('compact and explicit encodings read differently', 'eager', 'differs-from-explicit')
+    return 'equal', None
+
+
+def daqmx_histories():
+    """DAQmx layouts (1-2 raw buffers, several scalers) whose later segments restate, permute, switch off or inherit indexes"""
+    from . import c11
+    return [h for _f, h in c11.fam_e()] + [h for _f, h in c11.fam_d()] + [h for _f, h in c11.fam_c('quick') if len(h) > 2]
+
+
+def _daqmx_worker(item):
+    lo, hi, seed = item
+    res = {'counters': {'histories': 0, 'nontrivial': 0}, 'outcomes': {}, 'violations': [], 'samples': []}
+    for hi_, hist in enumerate(daqmx_histories()[lo:hi]):
+        outcome, viol = check_raw_history(hist, seed)
+        res['counters']['histories'] += 1
+        res['counters']['nontrivial'] += 1
+        res['outcomes'][outcome] = res['outcomes'].get(outcome, 0) + 1
+        if viol is not None and len(res['violations']) < 10:
+            res['violations'].append({'case': {'daqmx_history': lo + hi_, 'seed': seed}, 'expected': 'reads as reference interpretation',
+                                      'observed': viol[0], 'signature': {'kind': viol[2], 'mode': viol[1], 'family': 'daqmx'}})
+    return res
+
+
 def _bfs_worker(item):
     """Execute every transition out of one state (given by its representative history)."""
     lbls, aname, seed = item
@@ -299,6 +343,8 @@ def _alphabet(name):
         chans, encs, chunks, props = {
             'A2s': ('ab', ['F1', 'F2', 'SAME', 'NODATA'], [1], False),
             'A2': ('ab', ['F1', 'F2', 'FX', 'SAME', 'NODATA'], [1, 2], True),
+            # declarations that contribute no values: zero-length indexes and segments without any chunk
+            'A2z': ('ab', ['F0', 'F1', 'FX', 'SAME', 'NODATA'], [0, 1], False),
             'A2x': ('ab', ['F1', 'F2', 'FX', 'SAME', 'NODATA'], [1], False),
             'A3s': ('abc', ['F1', 'F2', 'SAME', 'NODATA'], [1], False),
             'A3c': ('abc', ['F1', 'F2', 'SAME', 'NODATA'], [1, 2], False),
@@ -314,7 +360,7 @@ def run(ctx):
     cov = {'full_tree': [], 'bfs': {}}
     results = []
     # (i) full trees
-    trees = [('A2', 2), ('A2s', 3)] if ctx.tier == 'quick' else [('A2', 2), ('A2x', 3), ('A3r', 2)]
+    trees = [('A2', 2), ('A2s', 3), ('A2z', 2)] if ctx.tier == 'quick' else [('A2', 2), ('A2x', 3), ('A3r', 2), ('A2z', 2)]
     for aname, depth in trees:
         alpha = _alphabet(aname)
         if depth >= 3:
@@ -334,6 +380,12 @@ def run(ctx):
     cov['full_tree'].append({'alphabet': 'A2s x (interleaved, big-endian) per segment', 'labels': len(_alphabet('A2s')), 'depth': 2,
                              'histories': mv['counters'].get('histories', 0)})
     results.append(mv)
+    # (i'') DAQmx segments: the same encodings over raw-buffer layouts
+    nd = len(daqmx_histories())
+    md = merge(ctx.map(_daqmx_worker, [(i, min(nd, i + 20), seed) for i in range(0, nd, 20)]))
+    cov['full_tree'].append({'alphabet': 'DAQmx layouts x (restated, permuted scalers, row change, no-data, same-as-before, metadata-less)',
+                             'labels': nd, 'depth': 3, 'histories': md['counters'].get('histories', 0)})
+    results.append(md)
     tree = merge([{'counters': r['counters'], 'outcomes': r['outcomes'], 'violations': r['violations'],
                    'samples': r['samples']} for r in results])
     # (ii) BFS to fixpoint
@@ -396,6 +448,9 @@ def run(ctx):
 
 
 def replay(case):
+    if 'daqmx_history' in case:
+        outcome, viol = check_raw_history(daqmx_histories()[case['daqmx_history']], case.get('seed', 0))
+        return (viol is not None), 'reads as reference interpretation', viol[0] if viol else outcome
     fl = case.get('flags')
     outcome, v, _k, forb, _ref = check_history(case['labels'], case.get('seed', 0), flags=[tuple(x) for x in fl] if fl else None)
     if v is None:
